@@ -58,7 +58,7 @@ P['C09'] = dict(
 )
 
 P['C05'] = dict(
-    rule='bounded-exhaustive: every stream over the alphabet {FE,FD,00,01,02,FF} up to length 5 (quick) / 7 (thorough) x every segmentation into transport reads (random segmentations above length 5), plus a transport error injected at every offset of the short ones; structured streams of 1..4 valid / truncated / corrupted frames (v1, v2, signed, dialect and raw) separated by junk (sometimes containing marker bytes) read whole, in two random splits, byte by byte, and with a transport error at every byte offset; compared: the whole result sequence and the number of stream items consumed by every call. Non-trivial: model output not a bare rejection.; every structured stream is also read through a keyed reader (v1, unsigned and foreign-key frames must be refused after consuming the whole frame)',
+    rule='bounded-exhaustive: every stream over the alphabet {FE,FD,00,01,02,FF} up to length 5 (quick) / 7 (thorough) x every segmentation into transport reads (random segmentations above length 5), plus a transport error injected at every offset of the short ones; structured streams of 1..4 valid / truncated / corrupted frames (v1, v2, signed, dialect and raw) separated by junk (sometimes containing marker bytes) read whole, in two random splits, byte by byte, and with a transport error at every byte offset; compared: the whole result sequence and the number of stream items consumed by every call. Non-trivial: model output not a bare rejection.; every structured stream is also read through a keyed reader (v1, unsigned and foreign-key frames must be refused after consuming the whole frame); dialect frames with a correct checksum and a payload of the wrong length (v1 shorter / longer, v2 longer) inside the structured streams',
     assumptions=['the transport returns data or an error per Read call, never both, and never an empty read', 'bufio.Reader modelled by Model/Stream.v'],
     mismatch_meaning='result sequence or per-call consumption differs from the model proved total, progressing and split-independent: concrete stream and segmentation',
 )
@@ -172,34 +172,34 @@ def cmp_scen(case, impl, model):
 
 P['C10'] = dict(
     bin='scen', compare=cmp_scen,
-    rule='real gomavlib.Node over 1..4 custom endpoints with scripted in-memory transports; per channel a history of valid frames (v1/v2, signed on keyed links), complete frames with a wrong checksum / signature / missing signature and junk without frame markers, fed in random chunks from concurrent feeders; a transport error ends a channel (close event) and the endpoint opens the next one with its own history; consumer fast / slow / bursty; 0..2 concurrent writers; GOMAXPROCS 1/2/16. Observed per channel: the ordered event sequence, compared for equality with the model prediction (open, one event per read result of the frame-reader model on the same bytes, close). Close-race scenarios (consumer absent while frames arrive, Close(), then ranging over Events()): the observation must be a prefix of the prediction. Non-trivial: at least one frame event predicted.; four channels decoding 300 truncated v2 payloads of the same message type at once (every frame tagged with channel and index: a channel must see exactly its own frames in order); a TCP server channel with a 300 ms idle time-out whose application pauses twice for longer than that while the peer keeps sending (nothing lost, channel stays open)',
+    rule='real gomavlib.Node over 1..4 custom endpoints with scripted in-memory transports; per channel a history of valid frames (v1/v2, signed on keyed links), complete frames with a wrong checksum / signature / missing signature and junk without frame markers, fed in random chunks from concurrent feeders; a transport error ends a channel (close event) and the endpoint opens the next one with its own history; consumer fast / slow / bursty; 0..2 concurrent writers; GOMAXPROCS 1/2/16. Observed per channel: the ordered event sequence, compared for equality with the model prediction (open, one event per read result of the frame-reader model on the same bytes, close). Close-race scenarios (consumer absent while frames arrive, Close(), then ranging over Events()): the observation must be a prefix of the prediction. Non-trivial: at least one frame event predicted.; four channels decoding 300 truncated v2 payloads of the same message type at once (every frame tagged with channel and index: a channel must see exactly its own frames in order); a TCP server channel with a 300 ms idle time-out whose application pauses twice for longer than that while the peer keeps sending (nothing lost, channel stays open); one UDP datagram of 13 / 25 / 66 (thorough: 1..300) back-to-back frames sent to a UDP server endpoint and to a UDP client endpoint: every frame delivered in order, no parse error (finding F13)',
     assumptions=['scheduler perturbation (GOMAXPROCS, sleeps, Gosched) is search, not proof; the all-schedules claim is the LTS theorem', 'waiting is on predicted observables with a 20 s timeout'],
     mismatch_meaning='the event sequence the application observed from a channel differs from the sequence every execution of the node model produces (open first, one event per input in order, close last): concrete input history',
 )
 
 P['C11'] = dict(
     bin='scen', compare=cmp_scen,
-    rule='real Node over 1..5 custom endpoints; 1..3 submitter goroutines each issuing 3..17 calls drawn from the six Write* calls (messages and forwarded frames carrying a serial number; targets all / one / all-but-one, sometimes a channel of another node), with concurrent incoming traffic, GOMAXPROCS 1/2/16; total per channel below the queue size so nothing may be dropped; a FIFO marker per channel closes the observation. Per channel: every transport write must be exactly one frame; forwarded frames keep their header, originated messages carry the configured ids and per-link sequence numbers 0,1,2,..; the serial sequence on the wire is checked by the extracted acceptance predicate fan_ok (restricted to any submitter it equals that submitter\'s targeted submissions in order, and holds nothing else). Non-trivial: the predicate was evaluated on a non-empty wire.; router scenarios (every received frame forwarded to the other channels while several more arrive in the same transport read, with and without a dialect: forwarded bytes identical, in order, nothing back to the sender); a stalled sibling channel with an overflowing queue must not keep anything from the healthy one nor block the submitter; ArduPilot heartbeats from 20..40 distinct components (one burst of seven stream requests each) while the application writes 40..80 messages to the same channel: every write on the wire is one whole frame, sequence numbers gapless, count exact; a router variant that also answers with stream requests',
+    rule='real Node over 1..5 custom endpoints; 1..3 submitter goroutines each issuing 3..17 calls drawn from the six Write* calls (messages and forwarded frames carrying a serial number; targets all / one / all-but-one, sometimes a channel of another node), with concurrent incoming traffic, GOMAXPROCS 1/2/16; total per channel below the queue size so nothing may be dropped; a FIFO marker per channel closes the observation. Per channel: every transport write must be exactly one frame; forwarded frames keep their header, originated messages carry the configured ids and per-link sequence numbers 0,1,2,..; the serial sequence on the wire is checked by the extracted acceptance predicate fan_ok (restricted to any submitter it equals that submitter\'s targeted submissions in order, and holds nothing else). Non-trivial: the predicate was evaluated on a non-empty wire.; router scenarios (every received frame forwarded to the other channels while several more arrive in the same transport read, with and without a dialect: forwarded bytes identical, in order, nothing back to the sender); a stalled sibling channel with an overflowing queue must not keep anything from the healthy one nor block the submitter; ArduPilot heartbeats from 20..40 distinct components (one burst of seven stream requests each) while the application writes 40..80 messages to the same channel: every write on the wire is one whole frame, sequence numbers gapless, count exact; a router variant that also answers with stream requests; signed-v2, v2 and v1 nodes writing messages with payloads of 250..255 bytes next to small ones, as messages and as frames to forward: every transport write is exactly one frame that reads back (with the key) as the item submitted, in order',
     assumptions=['acceptance predicate fan_ok is the decidable form of C11_exactly_once + C11_wire_in_order when no queue overflows', 'scheduler perturbation is search'],
     mismatch_meaning='a wire shows a lost, duplicated, reordered, foreign or torn item, or wrong header fields: concrete submission history',
 )
 P['C13'] = dict(
     bin='scen', compare=cmp_scen,
-    rule='(a) 2..4 channels, one transport blocked in Write; 100..250 WriteMessageAll: every healthy channel must show all items in order (marker-terminated) and events must keep flowing; after release the stalled channel must show an ordered subsequence of at most 1+64 items (+marker). (b) transport Write failing at 1..3 random call positions: the wire must hold every other item, in order. (c) unencodable items (raw id outside the dialect; id > 255 on a V1 link) at random positions: every valid item must still reach the wire, sequence numbers gapless. Non-trivial: predicate evaluated on a non-empty wire.; (d) a Write stalls in a serial device at the k-th call and the read side then fails: close event with cause, the other channel goes on, Close returns',
+    rule='(a) 2..4 channels, one transport blocked in Write; 100..250 WriteMessageAll: every healthy channel must show all items in order (marker-terminated) and events must keep flowing; after release the stalled channel must show an ordered subsequence of at most 1+64 items (+marker). (b) transport Write failing at 1..3 random call positions: the wire must hold every other item, in order. (c) unencodable items (raw id outside the dialect; id > 255 on a V1 link) at random positions: every valid item must still reach the wire, sequence numbers gapless. Non-trivial: predicate evaluated on a non-empty wire.; (d) a Write stalls in a serial device at the k-th call and the read side then fails: close event with cause, the other channel goes on, Close returns; a TCP peer that stops reading for 3 s while the node floods 255-byte messages with a 200 ms write time-out (writes are cut by the deadline), then drains and keeps talking: a close event, or all ten later writes arrive',
     assumptions=['scheduler perturbation is search; the all-schedules claims are the LTS theorems'],
     mismatch_meaning='a stalled or failing channel delayed others, exceeded its bounded backlog, reordered, or stayed open while discarding output: concrete write history',
 )
 
 P['C12'] = dict(
     bin='scen', compare=cmp_scen,
-    rule='real Node; Close() issued at scripted points: before the first event is consumed, reader blocked on an undelivered event, idle, writer blocked in the transport (a transport whose Write only returns on Close), channel mid-close (read error just before), traffic in flight, 100 pending writes — each with the consumer running and absent, 1..3 custom endpoints, 0..2 goroutines calling WriteMessageAll before, during and after Close, GOMAXPROCS 1/2/16; then network endpoints over loopback (TCP/UDP server with a peer, TCP client connected and in reconnect back-off, UDP client, UDP broadcast) and a node whose initialisation fails on its third endpoint. Observed: Close returns within 8 s, ranging over Events() ends, each custom transport closed exactly once, no goroutine running gomavlib/pion code is left, Write* callers returned without panic, TCP/UDP ports can be bound again. Every case expects the verdict ok. Non-trivial: every case.; read error while a Write is stuck in a serial device; a device handed out while Close is in progress must be closed; Close with a stuck channel whose queue has overflowed; Close() called directly after NewNode() (GOMAXPROCS 1/2/16, heartbeats on and off): no device may be opened after Close returned; odd but possible settings of the broadcast endpoint and a late-failing endpoint list: whatever the outcome of the initialisation, the local port is free after the failure or after Close; Close after 1..5 ms of a 100..500 microsecond heartbeat period (30 times); transports that release a blocked Read 300 ms late (one look for live goroutines 40 ms after Close returned)',
+    rule='real Node; Close() issued at scripted points: before the first event is consumed, reader blocked on an undelivered event, idle, writer blocked in the transport (a transport whose Write only returns on Close), channel mid-close (read error just before), traffic in flight, 100 pending writes — each with the consumer running and absent, 1..3 custom endpoints, 0..2 goroutines calling WriteMessageAll before, during and after Close, GOMAXPROCS 1/2/16; then network endpoints over loopback (TCP/UDP server with a peer, TCP client connected and in reconnect back-off, UDP client, UDP broadcast) and a node whose initialisation fails on its third endpoint. Observed: Close returns within 8 s, ranging over Events() ends, each custom transport closed exactly once, no goroutine running gomavlib/pion code is left, Write* callers returned without panic, TCP/UDP ports can be bound again. Every case expects the verdict ok. Non-trivial: every case.; read error while a Write is stuck in a serial device; a device handed out while Close is in progress must be closed; Close with a stuck channel whose queue has overflowed; Close() called directly after NewNode() (GOMAXPROCS 1/2/16, heartbeats on and off): no device may be opened after Close returned; odd but possible settings of the broadcast endpoint and a late-failing endpoint list: whatever the outcome of the initialisation, the local port is free after the failure or after Close; Close after 1..5 ms of a 100..500 microsecond heartbeat period (30 times); transports that release a blocked Read 300 ms late (one look for live goroutines 40 ms after Close returned); outcome-agnostic node settings with extreme numbers (stream request rate 65535 / 65536 / -1 / 2^40, ids 255, heartbeat types 255 / -1, v1 with a key, system id 0, time-outs of 1 ns) over TCP server + UDP server + custom endpoint, each on a port of its own: after a refusal or after Close the ports are free, no goroutine is left and the custom transport was closed exactly once when the node ran',
     assumptions=['fairness of the Go scheduler and OS release of sockets are measured, not proved', 'goroutine-leak probe: stacks containing gomavlib or pion frames, polled up to 3 s'],
     mismatch_meaning='Close did not return, or left a goroutine, socket, open event channel or unclosed custom transport behind, or a Write* call blocked / panicked: the scenario description is the replay',
 )
 
 P['C14'] = dict(
     bin='scen', compare=cmp_scen,
-    rule='(1) pkg/timednetconn over a recording net.Conn: random Read/Write sequences, the recorded call trace (deadline armed before every call, deadline value within 20 percent of the configured timeout) compared with the model; (2) serial endpoint over fake devices (verif hook), reconnect period 60 ms: scripts of 2..6 outcomes (open failure / open ok then read error with a scripted cause): observed trace of open attempts, back-offs (inferred from gaps >= 0.7 period), open and close events with their cause compared with the provider model, two channels open at once flagged; (3) custom endpoint: close event carries the injected cause; (4) TCP client against a server that accepts, sends a frame and hangs up k times after a period with nothing listening: open/close alternation compared with the model; (5) TCP and UDP servers, idle timeout 200 ms: two peers get their own channels, the silent one is closed by a timeout inside [0.9 idle, 2 idle + 1.5 s], the talking one is not, a third peer is still accepted. Non-trivial: a trace with at least one channel.; in the serial scripts the devices with an odd cause have a Write stuck in the transport at the moment the read fails; a TCP client against a server whose accept queue is full (listen backlog 0): attempts end in dial time-outs, then the server accepts and the client must connect; (6) idle expiry against the timed model: a peer of a TCP / UDP server sends bursts with gaps of 60..340 ms (idle time-out 400 ms) and stops: the observed closing time must lie in [model - 60 ms, model + 600 ms] where the model gets the measured arrival times',
+    rule='(1) pkg/timednetconn over a recording net.Conn: random Read/Write sequences, the recorded call trace (deadline armed before every call, deadline value within 20 percent of the configured timeout) compared with the model; (2) serial endpoint over fake devices (verif hook), reconnect period 60 ms: scripts of 2..6 outcomes (open failure / open ok then read error with a scripted cause): observed trace of open attempts, back-offs (inferred from gaps >= 0.7 period), open and close events with their cause compared with the provider model, two channels open at once flagged; (3) custom endpoint: close event carries the injected cause; (4) TCP client against a server that accepts, sends a frame and hangs up k times after a period with nothing listening: open/close alternation compared with the model; (5) TCP and UDP servers, idle timeout 200 ms: two peers get their own channels, the silent one is closed by a timeout inside [0.9 idle, 2 idle + 1.5 s], the talking one is not, a third peer is still accepted. Non-trivial: a trace with at least one channel.; in the serial scripts the devices with an odd cause have a Write stuck in the transport at the moment the read fails; a TCP client against a server whose accept queue is full (listen backlog 0): attempts end in dial time-outs, then the server accepts and the client must connect; (6) idle expiry against the timed model: a peer of a TCP / UDP server sends bursts with gaps of 60..340 ms (idle time-out 400 ms) and stops: the observed closing time must lie in [model - 60 ms, model + 600 ms] where the model gets the measured arrival times; the timednetconn call trace with scripted results of the wrapped connection (failed, timed-out, partial): handed back unchanged, next call made afresh; a healthy TCP client channel fed valid frames, junk, a wrong checksum and v1 frames with a right checksum and a payload of the wrong length: parse errors only, no close event, one connection',
     assumptions=['deadline enforcement is the operating system\'s; expiry is checked inside a tolerant bracket (a deadline firing inside a frame surfaces as a parse error first, the next read closes the channel)', 'back-offs are observed through timing with tolerance'],
     mismatch_meaning='the observed lifecycle of channels (attempts, back-offs, open/close events and causes, idle expiry) differs from the provider model proved to reconnect after every failure with at most one channel open',
 )
